@@ -137,7 +137,9 @@ def _name_counts(fnode):
 def _inline_single_use_temps(fnode):
     """`t = a.b.c` immediately followed by a simple statement that reads `t`
     once, before any call completes, `t` bound and read nowhere else in the
-    function  ->  the statement with `a.b.c` in place of `t`."""
+    function  ->  the statement with `a.b.c` in place of `t`.
+    `t = E` immediately followed by `if t:` / `if not t:`, `t` bound and read
+    nowhere else  ->  `if E:` / `if not E:`."""
     loads, stores = _name_counts(fnode)
     SIMPLE = (ast.Expr, ast.Assign, ast.AugAssign, ast.Return, ast.Raise,
               ast.Assert, ast.Delete)
@@ -155,6 +157,25 @@ def _inline_single_use_temps(fnode):
                 if loads.get(t, 0) == 1 and stores.get(t, 0) == 1 and \
                         _reads_before_any_call(nxt, t):
                     out.append(_Subst(t, s.value).visit(nxt))
+                    i += 2
+                    continue
+            if isinstance(s, ast.Assign) and len(s.targets) == 1 and \
+                    isinstance(s.targets[0], ast.Name) and \
+                    isinstance(nxt, ast.If):
+                # `t = E` / `if t:` (or `if not t:`), t used nowhere else:
+                # E is evaluated immediately before the test either way
+                t = s.targets[0].id
+                tst = nxt.test
+                neg = isinstance(tst, ast.UnaryOp) and isinstance(
+                    tst.op, ast.Not)
+                nm = tst.operand if neg else tst
+                if isinstance(nm, ast.Name) and nm.id == t and \
+                        loads.get(t, 0) == 1 and stores.get(t, 0) == 1:
+                    e = ast.copy_location(s.value, tst)
+                    nxt.test = ast.copy_location(
+                        ast.UnaryOp(op=ast.Not(), operand=e), tst) \
+                        if neg else e
+                    out.append(nxt)
                     i += 2
                     continue
             out.append(s)
